@@ -80,7 +80,16 @@ MANIFEST = dict(
          'the table of entry points (compared with observed accesses, as are routes through nested chains). Symbolic '
          'links: containment is lexical (abspath); a component-wise realpath model proves that lexical containment is real '
          'containment when no entry below the root on the way is a link, and refutes it with a link inside the root. '
-         'Drive-letter / UNC / NUL / non-existing-component inputs are computed instances and part of the search.',
+         'Drive-letter / UNC / NUL / non-existing-component inputs are computed instances and part of the search. '
+         'Round 5: the guard language carries the string transformations of the name-normalising helpers (casefold / lower, '
+         'backslash replacement, normpath, conditional strings), so a containment test made through _norm_name / '
+         '_folder_prefix on case-folded strings is read faithfully and rejected by the recogniser (named obligation; '
+         'c18_casefold_guard_refuted: root /t/Maps lets ../maps/secret.txt through), while the same helper on the un-folded '
+         'root is recognised as sound (the root "/" gives the empty prefix); a containment method that hands the decision '
+         'to a module-level function taking the file system as a parameter is read through the call, and a decoration of '
+         'that function (functools.lru_cache keyed by the object, whose __eq__ / __hash__ ignore constrain_path) is a '
+         'wrapper and shared state in the censuses. The search builds the chain Game(gameinfo tree).get_filesystem() and has '
+         'siblings equal to the root after compatibility normalisation (fullwidth letter) and after stripping.',
     note='Trusted: Coq kernel + vm_compute, translate/c18_guard.py and translate/c18_ops.py, the hand model SM/PathNorm.v of '
          'CPython posixpath (tied by the exhaustive correspondence, POSIX only; Windows path semantics not covered) and the '
          'evaluation of path expressions SM/PathOps.v (tied by the operations correspondence), Adler-32 as the block '
@@ -97,7 +106,10 @@ MANIFEST = dict(
          'not seen; the history search on the implementation (which imports the package modules naming the classes and '
          'shares constructor extras between objects) is the backstop. Symbolic links inside the root pointing out are '
          'followed (lexical reading, observed and counted, not reported). The census booleans in source_ok state that the '
-         'model applies (no table, no wrapper); the proof of c18_property uses guard_ok and calls_ok.',
+         'model applies (no table, no wrapper); the proof of c18_property uses guard_ok and calls_ok. '
+         'Hypotheses of c18_property that are not generated objects: is_abs cwd (os.getcwd() is absolute), the os.walk '
+         'entry-name contract, and step_covered / only_drops for a memo table (vacuous for today\'s source: no table). '
+         'fold_char models str.casefold on ASCII letters only (identity elsewhere); no accepted guard contains it.',
 )
 
 IMPORTS = ['SV.SM.PathNorm', 'SV.SM.PathNormEnum', 'SV.SM.PathOps', 'SV.SM.PathWalkRel', 'SV.SM.PathMemo', 'SV.SM.PathHistory', 'SV.SM.PathProperty', 'SV.Gen.Containment_gen', 'SV.Gen.FsOps_gen', 'SV.Gen.FsCensus_gen', 'SV.Props.C18', 'Coq.NArith.NArith',
@@ -467,6 +479,9 @@ TREE = {
     't/rootx', 't/root.bak/in.txt', 't/other/in.txt', 't/roo/in.txt',
     # siblings that differ from the root only in case (a case-folding comparison would take them for the root)
     't/Root/in.txt', 't/ROOT/sub/in.txt',
+    # round 5: siblings whose names equal the root's name after a transformation other than case folding: Unicode
+    # compatibility normalisation (fullwidth 'r', U+FF52: NFKC('\uff52oot') == 'root') and stripping (trailing blank)
+    't/\uff52oot/in.txt', 't/root /in.txt',
     'elsewhere/data.txt',
     # files INSIDE the root whose literal names contain backslashes (ordinary characters on POSIX): the name validates as
     # inside, the File handle built from it stores the name with '\\' turned into '/', i.e. a path that leaves the root
@@ -485,9 +500,24 @@ ROOT_CONFIGS = [
     # round 4: file systems made by the package's own factories (entry points that construct a RawFileSystem)
     ('factory-get_filesystem', 'Factory:get_filesystem:{BASE}/t/root'),
     ('factory-get_inst_locs', 'Factory:get_inst_locs:{BASE}/t/root/map.vmf'),
+    # round 5: the chain Game(...).get_filesystem() builds from a gameinfo.txt whose search path names the root
+    ('factory-Game', 'Factory:Game:{BASE}/t/game'),
     # ... and a file system the caller made and then handed to a consumer inside the package (PackList keeps the chain)
     ('factory-then-PackList', 'Consumer:PackList:{BASE}/t/root'),
 ]
+GAMEINFO = '''"GameInfo"
+{
+    "Game" "verif"
+    "Filesystem"
+    {
+        "SteamAppId" "620"
+        "SearchPaths"
+        {
+            "game" "|gameinfo_path|../root"
+        }
+    }
+}
+'''
 CHAIN_PREFIXES = [None, '', 'sub', 'sub/']
 # round 4: a chain inside a chain (outer prefix, inner prefix) around the constrained member; and an UNconstrained member on
 # another folder ({BASE}/t/root_evil/sub, consulted first) next to the constrained one
@@ -504,7 +534,7 @@ HIST_SUB_OPS = SUB_OPS + ['read_kv1']       # what the history operation perform
 ENTRY_OPS = ['read_kv1']
 SEGS = ['..', '..', '.', '', 'in.txt', 'a', 'sub', 'deep.txt', 'root', 'root_evil', 'secret.txt', 't', 'rootx', 'root.bak',
         'sub_evil', 'x.txt', 'x', 'above.txt', 'top.txt', 'other', 'roo', 'nested.txt', 'elsewhere', 'data.txt',
-        'Root', 'ROOT', ' ..', '.. ', '%2e%2e', '\uff0e\uff0e']
+        'Root', 'ROOT', ' ..', '.. ', '%2e%2e', '\uff0e\uff0e', '\uff52oot', 'root ']
 
 _events: list | None = None
 _obs_thread = 0
@@ -612,6 +642,21 @@ def make_fs(base: str, root_spec: str, chain_prefix, constrain: bool = True):
         if how == 'get_filesystem':
             from srctools.filesys import get_filesystem
             raw = get_filesystem(arg)
+        elif how == 'Game':
+            # round 5: Game(<folder with gameinfo.txt>).get_filesystem(): the search path '|gameinfo_path|../root' arrives
+            # as an un-normalised pathlib.Path ({BASE}/t/game/../root) at RawFileSystem
+            from srctools.game import Game
+            gdir = Path(arg)
+            gdir.mkdir(parents=True, exist_ok=True)
+            if not (gdir / 'gameinfo.txt').exists():
+                (gdir / 'gameinfo.txt').write_text(GAMEINFO)
+            made = Game(gdir).get_filesystem()
+            raws = [m for m, _ in made.systems if isinstance(m, RawFileSystem)]
+            if not raws:
+                raise RuntimeError('Game.get_filesystem() made no RawFileSystem for the gameinfo tree of the check')
+            raw = raws[0]
+            if chain_prefix is None:
+                return made, raw
         else:
             from srctools.instancing import get_inst_locs
             made = get_inst_locs(Path(arg))
@@ -620,7 +665,9 @@ def make_fs(base: str, root_spec: str, chain_prefix, constrain: bool = True):
                 return made, raw
     else:
         if spec.startswith('Factory:'):
-            spec = os.path.dirname(spec.split(':', 2)[2]) if spec.split(':', 2)[1] == 'get_inst_locs' else spec.split(':', 2)[2]
+            how = spec.split(':', 2)[1]
+            spec = os.path.dirname(spec.split(':', 2)[2]) if how == 'get_inst_locs' else \
+                os.path.join(os.path.dirname(spec.split(':', 2)[2]), 'root') if how == 'Game' else spec.split(':', 2)[2]
         raw = new_raw(Path(spec[5:]) if spec.startswith('Path:') else spec, constrain)
     if chain_prefix is None:
         return raw, raw
@@ -1756,6 +1803,29 @@ def run(ck: Ck) -> None:
     side = ck.extra.get('translated', {}).get('Containment_gen', {})
     RESOLVE_METHOD[0] = side.get('resolve_method', '_resolve_path')
     t = _stage(ck, 'translate', t)
+    if not ok_t:
+        # One translator failed closed, so nothing is built and no instance obligation is evaluated.  The censuses the
+        # OTHER translators did finish are lists computed here anyway ("wanted: empty"): report the non-empty ones under
+        # the names of the instance obligations they feed, so that a fault which both defeats the guard reader and
+        # installs a table / wrapper (a hand-written memo inside a helper of _resolve_path) still names what is wrong.
+        tr_all = ck.extra.get('translated', {})
+        for gen, key, name in (
+                ('Containment_gen', 'resolve_path_wrappers', 'resolve_path_is_called_unwrapped'),
+                ('FsOps_gen', 'method_wrappers', 'no_method_of_the_file_system_classes_is_wrapped'),
+                ('FsOps_gen', 'shared_mutable_state', 'file_system_methods_share_no_mutable_state'),
+                ('FsCensus_gen', 'foreign_patches', 'no_monkey_patch_of_the_file_system_classes_or_path_library_in_the_package'),
+                ('FsCensus_gen', 'foreign_subclasses', 'no_subclass_of_raw_file_system_redefines_a_method_in_the_package'),
+                ('FsCensus_gen', 'decorator_origins', 'neutral_decorators_are_the_library_ones'),
+                ('FsCensus_gen', 'unexpected_bases', 'file_system_classes_have_no_mixin_metaclass_or_class_decorator'),
+                ('FsCensus_gen', 'reachable_foreign_caches', 'no_cached_function_of_another_module_is_reached'),
+                ('FsCensus_gen', 'per_object_state', 'file_system_objects_keep_no_table_or_outside_state'),
+                ('FsCensus_gen', 'entry_unread', 'entry_points_land_on_access_methods')):
+            found = tr_all.get(gen, {}).get(key) or []
+            if found:
+                ck.obligation('census:' + name, False,
+                              f'{key} (wanted: empty) = ' + '; '.join(' / '.join(map(str, w)) for w in found)[:500]
+                              + ' - evaluated outside the kernel because another translator failed closed')
+                ck.notes.append(f'census {key}: ' + '; '.join(' / '.join(map(str, w)) for w in found)[:300])
     built = ok_t and ck.build(['Props/C18.vo', 'SM/PathNormEnum.vo'])
     t = _stage(ck, 'build', t)
     th = None
@@ -1874,6 +1944,7 @@ def run(ck: Ck) -> None:
         ck.explain('instance:root_')
         ck.explain('instance:constrain_flag')
         ck.explain('translate:Containment_gen')
+        ck.explain('census:')
     if any(k.startswith(('hang-', 'unexpected-exception-')) for k in keys):
         # the statement the translators could not read is the one that hangs / raises: the failing input is in hand
         ck.explain('translate:Containment_gen')
